@@ -41,6 +41,9 @@ func mixedGenesis(rng *rand.Rand) (GenesisSpec, map[string]int) {
 			}
 		case "sd", "proxy", "factory":
 			c.Balance = "5000000000000000000"
+		case "sd2", "sd3":
+			c.Balance = "1000"
+			c.Bal2 = "777"
 		}
 		g.Contracts = append(g.Contracts, c)
 		labels[name] = i
@@ -59,7 +62,7 @@ func genMixedOps(rng *rand.Rand, g *GenesisSpec, nBlocks, maxTx int) []Op {
 		blk := Op{K: "block", Dt: pick(rng, 1, 5, 5, 6, 60), Prop: rng.IntN(4), Byz: rng.IntN(4) == 0}
 		ops = append(ops, blk)
 		if rng.IntN(12) == 0 {
-			ops = append(ops, Op{K: "jump", Dt: pick(rng, 3600, 86400, 30 * 86400)})
+			ops = append(ops, Op{K: "jump", Dt: pick(rng, 3600, 86400, 30*86400)})
 		}
 	}
 	ops = append(ops, Op{K: "block", Dt: 5})
@@ -177,7 +180,7 @@ func runMixedIn(r *RunCtx, s *Script) *World {
 }
 
 func init() {
-	for _, p := range []string{"C04", "C05", "C13"} {
+	for _, p := range []string{"C04", "C05", "C13", "C06", "C09", "C20"} {
 		Arms[p] = &Arm{Gen: genMixed(p), Run: runMixed}
 	}
 }
